@@ -541,6 +541,16 @@ class Flow:
                                 isinstance(q, ast.Slice) for q in
                                 (x.slice.elts if isinstance(x.slice, ast.Tuple) else [x.slice]))
                             for x in ast.walk(st.value))
+                        if not rhs_array:
+                            # a bare operand that is an array (subscripted elsewhere in the
+                            # function, or carrying an array role) makes the update an array
+                            # update: z += (z_bar - z) / n
+                            bases = {id(x.value) for x in ast.walk(st.value) if isinstance(x, ast.Subscript)}
+                            for x in ast.walk(st.value):
+                                if isinstance(x, ast.Name) and id(x) not in bases and x.id != name and (
+                                        self._is_subscripted(f, x.id)
+                                        or set(self.env[f].get(x.id, ())) & ARRAY_ROLES):
+                                    rhs_array = True
                         if not roles & ARRAY_ROLES and not self._is_subscripted(f, name) \
                                 and not rhs_array:
                             continue
